@@ -4,7 +4,7 @@ from vlib.core import Case
 
 ID = "C11"
 LEAN_MODULE = "Ctrmml.Properties.C11"
-THEOREMS = ["C11_fm_roundtrip", "C11_fm_2op_spec", "C11_psg_frames", "C11_psg_marks", "C11_pitch_node", "C11_pitch_node_limit",
+THEOREMS = ["C11_fm_roundtrip", "C11_fm_2op_spec", "C11_fm_base_inv", "C11_fm_2op_base", "C11_psg_frames", "C11_psg_marks", "C11_pitch_node", "C11_pitch_node_limit",
             "C11_pitch_vibrato", "C11_vibrato_rate", "C11_pitch_decode_compact", "C11_pitch_decode_extended", "C11_pitch_loop_checked",
             "C11_pitch_form",
             "C11_psg_slide_rat_partial"]
@@ -598,9 +598,10 @@ LEVEL_TEXT = ("Machine-checked theorems over a Lean model of MDSDRV_Data: every 
               "(operators in hardware order, AM flag, transpose byte); a 2op definition is its base patch with only the multipliers, the fourth operator's "
               "level and the transpose replaced; for every floating-point arithmetic whose single slides have the slide shape (hypothesis SlideOK), every "
               "PSG envelope expands to the written frames with sustain/loop marks at the written places (merging of equal frames, the 15-frame cap and "
-              "the end/loop command are handled by the proof; mark positions and pitch envelopes are not proved). The model "
+              "the end/loop command are handled by the proof); pitch envelopes: node structure, the 256-node limit, both read-back forms, vibrato; "
+              "a 2op base is always a 30-byte FM image (state invariant of read_song). The model "
               "runs IEEE binary64 and is tied to mdsdrv.cpp byte for byte on the generated definitions.")
-LEVEL_NOTE = ("Partial: SlideOK for binary64 is not proved but checked exhaustively against the real code (65280 slides in the thorough tier); the positions of "
-              "PSG sustain/loop marks and all pitch-envelope clauses (start pitch, frames, error bound, compact-vs-extended, loop index) are checked by the "
-              "independent decoders expandPsg / runPitchEnv on the real bytes of every generated definition, not proved. "
+LEVEL_NOTE = ("Partial: SlideOK for binary64 is not proved but checked exhaustively against the real code (65280 slides in the thorough tier); the "
+              "exact-decimal pitch clauses (start = floor(256*initial), error below one step per frame) are checked by the independent decoder runPitchEnv on the "
+              "real bytes of every generated definition, not proved; a PSG loop mark behind more than 255 bytes wraps (known finding). "
               "Trusted: Lean kernel, hand-written model and spec, IEEE-754 binary64 semantics, g++/ASan/UBSan, harness.")
